@@ -62,7 +62,13 @@ def all_pairs(toks):
 def scalar_cmp_exec(rng, kind):
     vals = {"I": ints, "F": floats, "S": strings, "X": blobs}[kind](rng) if kind != "Y" else TYPES
     L, toks = define(kind, vals)
-    return ["reset"] + L + all_pairs(toks)
+    extra = []
+    if kind == "X":                       # plain structs of other types (12 and 5 bytes): ordered among themselves, never across
+        for sz in (12, 5):
+            d, tk = define("X", blobs(rng, 8, sz), len(toks) + len(extra) + 1 + (100 if sz == 5 else 50))
+            L += d; extra += all_pairs(tk)
+            extra += ["cmp %d %d" % (toks[0], tk[0]), "cmp %d %d" % (tk[1], toks[1])]
+    return ["reset"] + L + all_pairs(toks) + extra
 
 def seq_cmp_exec(rng):
     """sequences of different lengths and container kinds compared element-wise; Trees by key then value"""
